@@ -128,6 +128,23 @@ def expected_reports(T0, T1, opts, single):
 
 # ---------------------------------------------------------------- one scenario, several runs
 def exec_scenario(ctx, sc, runs):
+    """(with sc['tz']: the whole scenario runs under that local time zone — the database also records a human-readable local date)"""
+    if sc.get('tz'):
+        import time
+        old_tz = os.environ.get('TZ')
+        os.environ['TZ'] = sc['tz']; time.tzset()
+        try:
+            return exec_scenario_(ctx, sc, runs)
+        finally:
+            if old_tz is None:
+                os.environ.pop('TZ', None)
+            else:
+                os.environ['TZ'] = old_tz
+            time.tzset()
+    return exec_scenario_(ctx, sc, runs)
+
+
+def exec_scenario_(ctx, sc, runs):
     """Builds the tree, generates the database, mutates, executes each run configuration.
     Returns a list of result dicts (first: the generation run, unless runs == [] ), in the order of `runs`."""
     D = tempfile.mkdtemp(prefix='pffc05')
@@ -453,6 +470,13 @@ def corpus():
                           ['touch', 'a|b"c.txt', 400_000_000], ['touch', ' lead é.dat', 499_999_999], ['touch', 'sub/deep/x', 500_000_001]]},
                 [{'opts': d, 'single': None, 'efile': True}, {'opts': [True, False, False], 'single': None, 'efile': True}]))
     out.append(({'root': 'T', 'files': [], 'muts': [], 'relocate': 0}, [{'gen': True}, {'opts': d, 'single': None, 'efile': True}]))
+    # a zone with daylight saving: 2021-10-31 00:30 UTC is 02:30 CEST, one hour later it is 02:30 CET — two different modification
+    # times with the same local wall-clock reading; and the spring gap
+    dst = [f('fall/back.bin', ['r', 31, 20], 1_635_640_200), f('fall/other.bin', ['r', 32, 20], 1_635_640_200, 250_000_000),
+           f('spring/gap.bin', ['r', 33, 20], 1_616_893_200)]
+    out.append(({'root': 'T', 'files': dst, 'relocate': 0, 'tz': 'CET-1CEST,M3.5.0,M10.5.0/3',
+                 'muts': [['touch', 'fall/back.bin', 3600 * 10 ** 9], ['touch', 'spring/gap.bin', -3600 * 10 ** 9]]},
+                [{'opts': d, 'single': None, 'efile': True}, {'opts': [True, False, False], 'single': None, 'efile': True}]))
     # exactly 256 (and 512 = 256 deleted + 256 flipped would be too slow: 256 deleted) recorded files in error: the exit status seen by
     # the caller of the command must still be non-zero (an error COUNT used as exit status wraps to 0 modulo 256)
     many = [f('m/%03d.t' % i, ['r', 1000 + i, 3], 1_300_000_000 + i) for i in range(256)] + [f('keep.t', ['r', 7, 3], 1_200_000_000)]
